@@ -13,7 +13,7 @@ def lockfacts_hook(ctx):
         res["broken"] = {"kind": "translator", "detail": "gen/lockfacts.txt missing"}
         return res
     flagged, warnings, impls, nfacts, untouched = {}, [], [], 0, []
-    kinds = {}
+    kinds, mutexes, guards = {}, [], {}
     for l in open(p):
         t = l.split()
         if not t:
@@ -31,10 +31,19 @@ def lockfacts_hook(ctx):
             flagged.setdefault(t[1] + "/" + t[2], set()).add(t[3])
         elif t[0] == "warning":
             warnings.append(" ".join(t[1:]))
-        elif t[0] == "field" and t[4] == "untouched" and t[3] != "sync":
-            untouched.append(t[1] + "/" + t[2])
+        elif t[0] == "mutex":
+            mutexes.append(t[2] + "/" + t[3])
+        elif t[0] == "field":
+            if t[4] == "untouched" and t[3] != "sync":
+                untouched.append(t[1] + "/" + t[2])
+            g = [x[6:] for x in t if x.startswith("guard=")]
+            if g and g[0] not in ("-", "Mutex"):
+                guards[t[1] + "/" + t[2]] = g[0]  # fields guarded by another mutex than the screen lock ("!m": no common mutex)
     res["stats"]["evaluations"] = nfacts
-    extra = {"impls": impls, "facts": nfacts, "flagged": {k: sorted(v) for k, v in sorted(flagged.items())},
+    extra = {"impls": impls, "facts": nfacts, "mutexes": mutexes, "fields_not_guarded_by_the_screen_mutex": guards,
+             "discipline_variant": "full (flagged list empty: discipline_tree / fields_race_free_tree give the unconditional statements)" if not flagged
+                                   else "partial (discipline_except_disengage; flagged entry points must be reproduced by the race detector)",
+             "flagged": {k: sorted(v) for k, v in sorted(flagged.items())},
              "untouched_fields": untouched, "translator_warnings": warnings}
     if warnings:
         res["broken"] = {"kind": "translator", "detail": warnings[:10]}
@@ -71,14 +80,14 @@ PROP = dict(
     lean=["Tcell.Props.C10", "Tcell.AuditLib"], namespaces=["Tcell.Props.C10"], engines=["race"], extra=[lockfacts_hook],
     trusted_base=[LEAN_TB, TRANS_TB,
                   "lock-fact translator harness/cmd/extract/lockfacts.go (go/ast flow walk, helper methods inlined): the theorems are about the EXTRACTED facts; it is validated both ways by the Go race detector (every flagged entry point must be reproduced, no report may hit a field the facts call safe)",
-                  "Go memory model axiomatised: the mutex is the only ordering in the concurrent phase; go-statement / channel / WaitGroup / Once happens-before enter only through the phase classification of the facts (init phase, after wg.Wait, one live instance of mainLoop/inputLoop)",
+                  "Go memory model axiomatised: the mutexes (the embedded screen mutex and every named sync.Mutex field, each exclusive and non-reentrant) are the only ordering in the concurrent phase; go-statement / channel / WaitGroup / Once happens-before enter only through the phase classification of the facts (init phase, after wg.Wait, one live instance of mainLoop/inputLoop)",
                   "Go race detector (-race) and the harness tty's probe counter standing for the output stream"],
     assumptions=["Init returns before the Screen is shared with other goroutines (accesses in the constructor and in Init before engage are not concurrent)",
                  "transform.Transformer Reset/Transform mutate the transformer (interface contract) — modelled as the pseudo-field encoder.state/decoder.state",
                  "the Tty implementation is itself safe for one concurrent Read and Write (FakeTty is)"],
 )
 META = dict(
-    technique="Lean 4 lockset theorem (generic over thread counts and schedules) + kernel-evaluated discipline check over lock facts regenerated from the source by a go/ast translator; Go race detector validates the extraction both ways and is the oracle on the real code",
-    text="PARTIAL (proof about an extracted model). Tcell.Props.C10 proves lockset_sound (all accesses to a field made holding the one exclusive mutex ⇒ no reachable race, any number of threads, any schedule), clean_fields_race_free (instantiated on the regenerated facts for every field no flagged fact mentions), blocks_contiguous (lock-guarded emissions ⇒ each critical section's output is one contiguous run of the tty stream) and show_block_shape; flagged_exact/discipline_partial make the kernel recompute the list of violating facts; discipline_except_disengage: on the current tree every fact of every entry point other than tscreen/Fini and tscreen/Suspend respects the discipline (flagged_only_disengage: the regenerated flagged list is exactly the unlocked tail of disengage — open findings C10-disengage-tail / C10-loops-overlap; Beep, SetSize, CanDisplay and the simscreen methods were repaired by da67ed6 / 5249fc9). Engine `race` reproduces each flagged entry point under `go build -race` with input/resize traffic (and reports any race the facts do not predict), and checks that every tty write during concurrent Sync+X is a whole block.",
-    note="Partial: Go's memory model is axiomatised in the thread semantics, the facts are as good as the translator (cross-checked by the race detector in both directions, sampled schedules). Trusted: Lean kernel, translator, race detector.",
+    technique="Lean 4 lockset theorem for any number of mutexes (generic over thread counts and schedules) + kernel-evaluated discipline check (for every field the lock sets of its accesses have a common mutex) over lock facts regenerated from the source by a go/ast translator; Go race detector validates the extraction both ways and is the oracle on the real code",
+    text="PARTIAL (proof about an extracted model). Tcell.Props.C10 proves lockset_sound_multi (threads take/release any number of exclusive mutexes; if ONE mutex m is held at every access to field f, no reachable state of any number of threads, any schedule, has a race on f), clean_field_race_free / clean_fields_race_free (instantiated on the regenerated facts, which carry the SET of mutexes held at each access, for every field no flagged fact mentions), blocks_contiguous (emissions guarded by the screen mutex ⇒ each critical section's output is one contiguous run of the tty stream, whatever other mutexes the threads use) and show_block_shape; exempt_exact / guards_exact / flagged_exact make the kernel recompute the field classification, the guard mutex of every field (a mutex in the intersection of the lock sets of its concurrent-phase accesses) and the list of violating facts. Two variants of the tree, decided by the kernel from the regenerated facts (discipline_tree, fields_race_free_tree): pinned tree — discipline_except_disengage (every fact of every entry point other than tscreen/Fini and tscreen/Suspend; flagged_only_disengage: the flagged list is exactly the unlocked tail of disengage incl. wg.Wait — findings C10-disengage-tail / C10-loops-overlap); tree with fixes/C10-disengage-lifecycle.patch (mutex `lifecycle` held for the whole of engage/disengage, tail of disengage under the screen lock) — nothing is flagged, discipline holds for EVERY fact and fields_race_free_tree for EVERY field that needs protection (wg.state is guarded by lifecycle: wg.Add holds {lifecycle, screen}, wg.Wait {lifecycle}; wg.Done is pure synchronisation). Engine `race` reproduces each flagged entry point under `go build -race` with input/resize traffic, partners chosen by disjoint lock sets (and reports any race the facts do not predict), always runs the lifecycle pairs Suspend/Resume/Fini/Init against each other with a watchdog (a call that never returns: lifecycle-deadlock), and checks that every tty write during concurrent Sync+X is a whole block.",
+    note="Partial: Go's memory model is axiomatised in the thread semantics (mutexes are the only ordering; go/channel/WaitGroup.Done→Wait/Once edges enter through the phase classification and the one-live-instance axiom for mainLoop/inputLoop, which the lifecycle mutex of the fix makes true), the facts are as good as the translator (cross-checked by the race detector in both directions, sampled schedules). Trusted: Lean kernel, translator, race detector.",
 )
